@@ -88,7 +88,9 @@ static void run_links_case(int alg, int in_alg, const rlink *links, size_t n, co
 		 * a refused chain can not be aggregated to a wrong value */
 		vf_outcome("aggr:%s:parse-refused:%x", tag, res);
 	} else {
-		for (i = 0; i < nstarts; i++) nt |= check_aggr(c, alg, in, in_len, starts[i], links, n, tag);
+		/* every start level twice in a row on the same chain object: the second call meets whatever the first one memoized
+		 * or left behind when it was refused */
+		for (i = 0; i < nstarts; i++) { nt |= check_aggr(c, alg, in, in_len, starts[i], links, n, tag); nt |= check_aggr(c, alg, in, in_len, starts[i], links, n, tag); }
 		/* memo: repeat the first start level after the others */
 		if (nstarts > 1) nt |= check_aggr(c, alg, in, in_len, starts[0], links, n, tag);
 		/* direct list API as well */
